@@ -1,4 +1,19 @@
 import BFL.Driver.KF
+import BFL.Driver.UT
+import BFL.Driver.SUKF
+import BFL.Driver.PF
+import BFL.Driver.Life
+import BFL.Driver.Race
+import BFL.Driver.Shape
+import BFL.Driver.Fault
+import BFL.Driver.Skip
+import BFL.Driver.Bounds
+import BFL.Driver.Density
+import BFL.Driver.Models
+import BFL.Driver.Extract
+import BFL.Driver.Quat
+import BFL.Driver.Dir
+import BFL.Driver.AnyBox
 /-
 Line-protocol driver: one case per input line, one canonical output line per case.
 Executes the model's own definitions (the ones the theorems are about).
@@ -6,7 +21,7 @@ Executes the model's own definitions (the ones the theorems are about).
 open BFL
 
 def handlers : List (String → List String → Option String) :=
-  [DriverKF.handle]
+  [DriverKF.handle, DriverUT.handle, DriverSUKF.handle, DriverPF.handle, DriverLife.handle, DriverRace.handle, DriverShape.handle, DriverFault.handle, DriverSkip.handle, DriverBounds.handle, DriverDensity.handle, DriverModels.handle, DriverExtract.handle, DriverQuat.handle, DriverDir.handle, DriverAnyBox.handle]
 
 def dispatch (line : String) : String :=
   match (line.trimAscii.toString.splitOn " ").filter (· ≠ "") with
